@@ -45,7 +45,8 @@ package ice
 //@   requires offered-candidate-was-never-started: baseOf(cand).closeCh == nil
 //@   loop 1 invariant socket-still-with-the-task: candidateConn.gClosed == old(candidateConn.gClosed) && !candidateConn.gHeld
 //@   loop 1 invariant candidate-still-not-started: baseOf(cand).closeCh == nil
-//@   site call Close#1 assert a-duplicate-closes-exactly-the-offered-socket: recv.payload == candidateConn.payload
+//@   site call Close#0 assert a-late-or-duplicate-candidate-closes-exactly-the-offered-socket: recv.payload == candidateConn.payload
+//@   site call start#1 assert C09 C18 a-failed-agent-released-everything-and-starts-no-late-candidate: a.connectionState != ConnectionStateFailed
 //@   site call start#1 assert candidate-is-started-with-the-offered-socket: recv == cand && arg0 == a && arg1 == candidateConn && candidateConn.gClosed == old(candidateConn.gClosed)
 //@   site call start#1 ghost after candidateConn.gHeld := true
 //@   ghostvar tracked bool = true
@@ -118,6 +119,10 @@ package ice
 //@ func (*Agent).gatherCandidatesSrflxMapped$1
 //@   props C09
 //@   opt nosafety
+//@   ghostvar publishable bool = false
+//@   site call publishableGatheredAddress#1 assert C18 checks-the-external-address-the-rewrite-rule-supplied: arg0 == a && arg1 == network && arg2 == mappedIP
+//@   site call publishableGatheredAddress#1 ghost publishable := result
+//@   site call NewCandidateServerReflexive#1 assert C18 publishes-only-an-external-address-of-an-enabled-network-type-outside-the-never-published-ranges: publishable && arg0.Network == network && arg0.Address == ipString(mappedIP.base, mappedIP.off, len(mappedIP))
 //@   ghostvar outstanding int = 0
 //@   loop 1 invariant first-socket-is-pending-then-none: outstanding == ite(rangeindex == 0 - 1, 1, 0) && rangeindex + 1 <= len(addresses)
 //@   loop 1 invariant first-socket-still-open-and-unowned: rangeindex == 0 - 1 ==> conn.gClosed == 0 && !conn.gHeld && conn != nil && conn.payload != nil
